@@ -22,3 +22,120 @@ Ltac inst_goals :=
   repeat (apply List.Forall_cons;
           [ cbn [fst snd evalR e_sum]; unfold Q2R; cbn [Qnum Qden]; try reflexivity; field | ]);
   apply List.Forall_nil.
+
+(* ------------------------------------------------------------------ EQConstraintComp / BalanceComp
+   The element formula (mult*lhs - rhs) * scale(rhs) and the three declared partials of the code, for ALL real
+   lhs, rhs, mult: variables 0, 1, 2.  Elementwise components: this covers every shape. *)
+
+Lemma is_derive_eq (f : R -> R) (x l l' : R) : is_derive f x l -> l = l' -> is_derive f x l'.
+Proof. intros H E. rewrite <- E. exact H. Qed.
+
+Lemma quarter_pos (r : R) : 1 / 4 * (r * r) + 1 <> 0.
+Proof. nra. Qed.
+
+Definition elem (normalize use_mult small : bool) :=
+  eq_elem normalize use_mult small (EVar 0) (EVar 1) (EVar 2).
+
+Lemma elem_smooth : forall normalize use_mult small rho,
+  (normalize = true -> small = false -> rho 1%nat <> 0) ->
+  smooth rho (fst (elem normalize use_mult small)).
+Proof.
+  intros [|] [|] [|] rho H; cbn; repeat split; auto; try (left; lia);
+    try (unfold Q2R; cbn [Qnum Qden]; change (Pos.to_nat 2) with 2%nat; cbn [pow]; nra);
+    try (apply H; reflexivity); try (apply Rabs_no_R0, H; reflexivity).
+Qed.
+
+Theorem eq_elem_partials_correct : forall normalize use_mult small rho,
+  (normalize = true -> small = false -> rho 1%nat <> 0) ->
+  let out := fst (elem normalize use_mult small) in
+  let d := snd (elem normalize use_mult small) in
+  is_derive (fun t => evalR (upd rho 0 t) out) (rho 0%nat) (evalR rho (fst (fst d))) /\
+  is_derive (fun t => evalR (upd rho 1 t) out) (rho 1%nat) (evalR rho (snd (fst d))) /\
+  (use_mult = true -> is_derive (fun t => evalR (upd rho 2 t) out) (rho 2%nat) (evalR rho (snd d))).
+Proof.
+  intros normalize use_mult small rho H out d.
+  pose proof (elem_smooth normalize use_mult small rho H) as S.
+  assert (Q : 1 / 4 * (rho 1%nat * rho 1%nat) + 1 <> 0) by apply quarter_pos.
+  split; [|split; [|intro Hm]]; eapply is_derive_eq; try (apply D_correct; exact S);
+    subst out d; unfold elem, eq_elem, scale_e, dscale_e, e_sign, cq;
+    destruct normalize, use_mult, small; try (exfalso; discriminate Hm);
+    cbn [fst snd D evalR Nat.eqb Z.eqb Z.sub e_Z Z.pred powerRZ Pos.to_nat Pos.iter_op Init.Nat.add pow];
+    unfold Q2R; cbn [Qnum Qden inject_Z Z.sub Z.add Z.opp Pos.pred_double];
+    change (Pos.to_nat 2) with 2%nat; change (Z.pos_sub 2 1) with 1%Z;
+    cbn [powerRZ pow Pos.to_nat Pos.iter_op Init.Nat.add];
+    change (Pos.to_nat 1) with 1%nat; cbn [pow];
+    try (assert (R1 : rho 1%nat <> 0) by (apply H; reflexivity);
+         assert (A1 : Rabs (rho 1%nat) <> 0) by (apply Rabs_no_R0, R1);
+         assert (AA : Rabs (rho 1%nat) * Rabs (rho 1%nat) = rho 1%nat * rho 1%nat)
+           by (symmetry; apply (Rsqr_abs (rho 1%nat)));
+         rewrite ?AA);
+    field; repeat split; try assumption; try nra.
+Qed.
+
+(* ------------------------------------------------------------------ dot products of variable blocks, any length
+   (DotProduct rows, MatrixVectorProduct rows, LinearSystem residual rows, VectorMagnitude radicand) *)
+
+Lemma evars_S : forall off n, evars off (S n) = EVar off :: evars (S off) n.
+Proof.
+  intros off n. unfold evars. cbn [seq map]. rewrite Nat.add_0_r. f_equal.
+  rewrite <- seq_shift, map_map. apply map_ext. intros k. rewrite Nat.add_succ_r. reflexivity.
+Qed.
+
+Definition ind (a b : nat) : R := if Nat.eqb a b then 1 else 0.
+
+(* sum_k [o1+k = x] * rho(o2+k) + rho(o1+k) * [o2+k = x] *)
+Fixpoint dsum (n o1 o2 : nat) (rho : env) (x : nat) : R :=
+  match n with
+  | O => 0
+  | S m => (ind o1 x * rho o2 + rho o1 * ind o2 x) + dsum m (S o1) (S o2) rho x
+  end.
+
+Lemma edot_D : forall n o1 o2 rho x,
+  evalR rho (D x (e_dot (evars o1 n) (evars o2 n))) = dsum n o1 o2 rho x.
+Proof.
+  induction n as [|n IH]; intros o1 o2 rho x.
+  - cbn. unfold Q2R. cbn. field.
+  - rewrite !evars_S. cbn [e_dot D evalR dsum]. rewrite IH. unfold ind.
+    destruct (Nat.eqb o1 x), (Nat.eqb o2 x); cbn [evalR]; unfold Q2R; cbn [Qnum Qden]; field.
+Qed.
+
+(* the partial of a row  a . b  with respect to the j-th entry of the a block is the j-th entry of the b
+   block, when x is not in the b block and the blocks have any common length n *)
+Lemma dsum_left : forall n o1 o2 rho j,
+  (j < n)%nat -> (forall k, (k < n)%nat -> o2 + k <> o1 + j)%nat ->
+  dsum n o1 o2 rho (o1 + j) = rho (o2 + j)%nat.
+Proof.
+  induction n as [|n IH]; intros o1 o2 rho j Hj Hd; [lia|].
+  cbn [dsum]. unfold ind.
+  assert (E2 : Nat.eqb o2 (o1 + j) = false).
+  { apply Nat.eqb_neq. specialize (Hd 0%nat). rewrite Nat.add_0_r in Hd. apply Hd. lia. }
+  rewrite E2. destruct j as [|j].
+  - rewrite !Nat.add_0_r, Nat.eqb_refl.
+    assert (Z : forall m a b, (forall k, (k < m)%nat -> b + k <> o1)%nat -> (o1 < a)%nat -> dsum m a b rho o1 = 0).
+    { induction m as [|m IHm]; intros a b Hb Ha; [reflexivity|]. cbn [dsum]. unfold ind.
+      replace (Nat.eqb a o1) with false by (symmetry; apply Nat.eqb_neq; lia).
+      replace (Nat.eqb b o1) with false
+        by (symmetry; apply Nat.eqb_neq; specialize (Hb 0%nat); rewrite Nat.add_0_r in Hb; apply Hb; lia).
+      rewrite IHm; [ring| |lia]. intros k Hk. specialize (Hb (S k)). rewrite Nat.add_succ_r in Hb.
+      rewrite Nat.add_succ_l. apply Hb. lia. }
+    rewrite Z; [ring| |lia].
+    intros k Hk. specialize (Hd (S k)). rewrite Nat.add_succ_r, Nat.add_0_r in Hd.
+    rewrite Nat.add_succ_l. apply Hd. lia.
+  - replace (Nat.eqb o1 (o1 + S j)) with false by (symmetry; apply Nat.eqb_neq; lia).
+    replace (o1 + S j)%nat with (S o1 + j)%nat by lia.
+    rewrite IH; [replace (S o2 + j)%nat with (o2 + S j)%nat by lia; ring|lia|].
+    intros k Hk. specialize (Hd (S k)). replace (S o2 + k)%nat with (o2 + S k)%nat by lia.
+    replace (S o1 + j)%nat with (o1 + S j)%nat by lia. apply Hd. lia.
+Qed.
+
+Theorem dot_row_partial : forall n o1 o2 rho j,
+  (j < n)%nat -> (forall k, (k < n)%nat -> o2 + k <> o1 + j)%nat ->
+  is_derive (fun t => evalR (upd rho (o1 + j) t) (e_dot (evars o1 n) (evars o2 n)))
+            (rho (o1 + j)%nat) (rho (o2 + j)%nat).
+Proof.
+  intros n o1 o2 rho j Hj Hd.
+  eapply is_derive_eq; [apply D_correct|rewrite edot_D; apply dsum_left; assumption].
+  (* polynomial: smooth everywhere *)
+  clear. generalize o1 o2. induction n as [|n IH]; intros a b; [exact I|].
+  rewrite !evars_S. cbn [e_dot smooth]. repeat split; auto.
+Qed.
